@@ -10,7 +10,9 @@ GEN_PREFIX = "<vgen:"
 
 
 def register_source(src, tag):
-    filename = "%s%s:%08x>" % (GEN_PREFIX, tag, zlib.crc32(src.encode()))
+    # the name deliberately contains format-string metacharacters: it ends up in repr(frame) and
+    # repr(code), which stackscope interpolates into warning and error messages
+    filename = "%s%s{0}{x}%%s:%08x>" % (GEN_PREFIX, tag, zlib.crc32(src.encode()))
     linecache.cache[filename] = (len(src), None, src.splitlines(True), filename)
     return filename
 
